@@ -108,7 +108,8 @@ class PropertyRun(object):
                 json.dump(doc, open(path, 'w'), indent=1, default=repr)
                 self.violations.append({'kind': 'proof+replay', 'key': k, 'replay': path, 'suffix': ''})
                 proof_violations += 1
-            elif baseline.get(k) == 'discharged':
+            elif baseline.get(k) in ('discharged', 'known'):
+                # ('known' = discharged outside the listed finding regions: a failure outside them is new)
                 doc['note'] = ('obligation was discharged on the reference tree and fails now; the solver model did '
                                'not reproduce natively (or no model): no-failing-input-found')
                 json.dump(doc, open(path, 'w'), indent=1, default=repr)
